@@ -12,7 +12,7 @@ the `RevocationRequest` kept with the old key is determined by the key and dropp
 -/
 import KrillModel.Base.ResSet
 import KrillModel.Base.Exc
-namespace KM.Ca
+namespace KM.CaK
 open KM.Res
 
 abbrev KeyId := Nat
@@ -342,4 +342,4 @@ example :
     k1000.wantsUpdate [1] 1000 0 = false ∧ k1000.wantsUpdate [1, 2] 1000 0 = true ∧
     k1000.wantsUpdate [1] 0 0 = false := by decide
 
-end KM.Ca
+end KM.CaK
